@@ -69,98 +69,6 @@ SWALLOW_TRIAGE = {
 }
 
 
-def _handlers_in(ctx, m, fn):
-    out = []
-    for t in ast.walk(fn):
-        if not isinstance(t, ast.Try):
-            continue
-        for h in t.handlers:
-            if h.type is None:
-                types = ['builtin:BaseException']
-            elif isinstance(h.type, ast.Tuple):
-                types = [ctx.res.resolve(e, m) for e in h.type.elts]
-            else:
-                types = [ctx.res.resolve(h.type, m)]
-            catches_xl = any(t_ and (is_excel_error_ref(ctx, t_) or t_ in ('builtin:Exception', 'builtin:BaseException'))
-                             for t_ in types)
-            if not catches_xl:
-                continue
-            reraises = any(isinstance(x, ast.Raise) for s in h.body for x in ast.walk(s))
-            returns_err = h.name and any(isinstance(x, ast.Return) and x.value is not None and h.name in names_in(x.value)
-                                         for s in h.body for x in ast.walk(s))
-            if reraises or returns_err:
-                continue
-            out.append((h, types))
-    return out
-
-
-def _swallowing_handlers(ctx):
-    """Handlers that catch an ExcelError (or broader) and drop it; keyed by the OUTERMOST enclosing function (class-qualified)
-    and their ordinal inside it. A private module-level helper with exactly one caller counts as part of that caller, so
-    that extracting or renaming a helper does not change the key."""
-    out = []
-    for m in ctx.repo.modules.values():
-        tops = [(q, f) for q, f in m.funcs.items() if isinstance(f._parent, (ast.Module, ast.ClassDef))]
-        callers = {}
-        for q, f in tops:
-            for c in ast.walk(f):
-                if isinstance(c, ast.Call) and isinstance(c.func, ast.Name):
-                    callers.setdefault(c.func.id, set()).add(q)
-        folded = {}      # helper qual -> caller qual
-        for q, f in tops:
-            if isinstance(f._parent, ast.Module) and q.startswith('_') and len(callers.get(q, ())) == 1 \
-                    and (m.name, q, 0) not in SWALLOW_TRIAGE:
-                caller = next(iter(callers[q]))
-                if caller != q:
-                    folded[q] = caller
-        per_owner = {}
-        for q, f in tops:
-            owner = folded.get(q, q)
-            for h, types in _handlers_in(ctx, m, f):
-                per_owner.setdefault(owner, []).append((q != owner, flow.pos(h), h, types, f))
-        for owner, lst in per_owner.items():
-            lst.sort(key=lambda x: (x[0], x[1]))
-            for k, (_, _, h, types, f) in enumerate(lst):
-                out.append((m, owner, f, h, k, types))
-    return out
-
-
-def _rule_2_handlers(ctx):
-    hs = _swallowing_handlers(ctx)
-    for m, qual, fn, h, k, types in hs:
-        key = (m.name, qual, k)
-        tri = SWALLOW_TRIAGE.get(key)
-        construct = f'swallowing handler #{k} in {qual} (catches {",".join(str(t).split(":")[-1] for t in types)})'
-        where = (m, qual, h.lineno)
-        if tri is None:
-            ctx.bad(where, construct, 'a handler catches an ExcelError (or broader) and drops it; it is not in the triaged table: '
-                                  'an error value reaching it would be lost instead of being propagated')
-        elif tri[0] == 'conversion':
-            ctx.ok(where, construct, 'triaged: ' + tri[1])
-        else:
-            # reachable with error values unless every caller tests isinstance(..., ExcelError) first
-            ctx.bad(where, construct, tri[1])
-    # the item path of _validate: items must be tested for errors before _safe_validate
-    xm = ctx.mod('xlfunctions.xl')
-    v = xm.func('_validate')
-    item_calls = [c for c in flow.calls_in(v) if isinstance(c.func, ast.Name) and c.func.id == '_safe_validate']
-    for c in item_calls:
-        # is there an isinstance(item, ExcelError) test in the comprehension / loop around it?
-        guarded = False
-        p = c._parent
-        while p is not None and p is not v:
-            if isinstance(p, (ast.ListComp, ast.GeneratorExp, ast.For, ast.IfExp)):
-                for x in ast.walk(p):
-                    if isinstance(x, ast.Call) and isinstance(x.func, ast.Name) and x.func.id == 'isinstance' \
-                            and len(x.args) == 2 and ctx.res.resolve(x.args[1], xm) == XLERR + 'ExcelError':
-                        guarded = True
-            p = p._parent
-        ctx.expect(guarded, c, 'items of Tuple[...] parameters tested for error values',
-                   'items of var-positional / Tuple[...] parameters and range cells reach _safe_validate without an '
-                   'isinstance(item, ExcelError) test: SUM(1,#N/A) gives 1, 10/0&"x" gives "x"')
-    ctx.floor(7, 'swallowing handlers + item path')
-
-
 PARTIAL_OPS = (ast.Pow, ast.Div, ast.Mod, ast.FloorDiv)
 
 
@@ -190,45 +98,6 @@ def rule_2(ctx):
                        f'{f.name} called with {label} (#N/A) gives {out.end} {V.norm(out.value)!r}: the error is dropped or replaced on the way '
                        '(items of Tuple[...] parameters are converted one by one and failures and error values are filtered out)')
     ctx.floor(12, 'aggregating functions x (scalar item, array item)')
-
-
-def _rule_3_native_ops(ctx, only_ops=None):
-    m = ctx.mod('xlfunctions.func_xltypes')
-    n = 0
-    for qual, fn in m.funcs.items():
-        short = qual.split('.')[-1]
-        if short not in ('__add__', '__sub__', '__mul__', '__truediv__', '__pow__', '__neg__'):
-            continue
-        for b in walk_local(fn):
-            if isinstance(b, ast.BinOp) and isinstance(b.op, PARTIAL_OPS) and (only_ops is None or isinstance(b.op, only_ops)):
-                n += 1
-                # guarded by a dominating zero test on the divisor / enclosed by a converting handler
-                conds = flow.path_conditions(b)
-                guard = any(c.kind == 'guard' and not c.polarity and any(
-                    isinstance(r, ast.Raise) and is_excel_error_ref(ctx, raise_class(ctx, r)) for r in c.origin.body)
-                    and _tests_same_value(c.test, b.right) for c in conds)
-                handler = False
-                p = b._parent
-                while p is not None and p is not fn:
-                    if isinstance(p, ast.Try) and any(flow.contains(s, b) for s in p.body):
-                        for h in p.handlers:
-                            hts = [h.type] if not isinstance(h.type, ast.Tuple) else h.type.elts
-                            names = {dotted(t) for t in hts if t is not None}
-                            if names & {'ZeroDivisionError', 'OverflowError', 'ArithmeticError', 'Exception'} and any(
-                                    isinstance(r, ast.Raise) and is_excel_error_ref(ctx, raise_class(ctx, r))
-                                    for s in h.body for r in ast.walk(s)):
-                                handler = True
-                    p = p._parent
-                opn = type(b.op).__name__
-                if opn_is_div(b) and not guard and not handler:
-                    pass
-                fails = {'Pow': '=0^-1 raises ZeroDivisionError, =10.5^400 OverflowError, (-8)^0.5 yields a complex number',
-                         'Mod': 'MOD(5,0) raises ZeroDivisionError', 'Div': 'the zero guard does not test the converted divisor: =1/FALSE, =1/"0.0" raise ZeroDivisionError instead of giving #DIV/0!',
-                         'FloorDiv': 'division by zero raises ZeroDivisionError'}[opn]
-                ctx.expect(guard or handler, b, f'{qual}: native `{opn}`',
-                           f'native {opn} on converted operands is neither guarded nor enclosed by a handler that '
-                           f'converts the Python exception into an Excel error: {fails}')
-    ctx.floor(2 if only_ops is None else 1, 'partial native operations in the arithmetic dunders')
 
 
 # texts that look a little like numbers, dates, percentages, booleans: operands of every scalar type never crash an operator
@@ -283,20 +152,6 @@ def rule_3(ctx, only_ops=None):
                        '; '.join(f'{k}: {", ".join(v[:4])}' for k, v in raised.items()) + ' - operators must return a value or an Excel error value '
                        'for operands of every scalar type')
     ctx.floor(1 if only_ops is not None else 12, 'operators x operand kinds')
-
-
-def opn_is_div(b):
-    return isinstance(b.op, ast.Div)
-
-
-def _tests_same_value(test, divisor):
-    """`<divisor expr> == 0` (either side): the guard must look at the converted value that is divided by."""
-    if isinstance(test, ast.Compare) and len(test.ops) == 1 and isinstance(test.ops[0], ast.Eq):
-        sides = [test.left, test.comparators[0]]
-        for x, y in (sides, sides[::-1]):
-            if isinstance(y, ast.Constant) and y.value == 0 and ast.dump(x) == ast.dump(divisor):
-                return True
-    return False
 
 
 def _err_lattice(ctx):
